@@ -311,7 +311,8 @@ class NestedExtensionArray(ExtensionArray):
         # We cannot use pa.compute.replace_with_mask(), it is not implemented for struct arrays:
         # https://github.com/apache/arrow/issues/29558
         # self._chunked_array = pa.compute.replace_with_mask(self._chunked_array, pa_mask, value)
-        self._chunked_array = replace_with_mask(self._chunked_array, pa_mask, value)
+        # The assigned value may be ragged, validate the result before storing it
+        self._replace_chunked_array(replace_with_mask(self._chunked_array, pa_mask, value), validate=True)
 
     def __len__(self) -> int:
         return len(self._chunked_array)
